@@ -21,6 +21,10 @@ def _make_class(spec, classes):
     name = spec["name"]
     base = classes[spec["base"]] if spec.get("base") else object
     extra = spec.get("extra_field")
+    bases = (base,)
+    if spec.get("base2") and spec["base2"] in classes and classes[spec["base2"]] is not base \
+            and not issubclass(base, classes[spec["base2"]]) and not issubclass(classes[spec["base2"]], base):
+        bases = (base, classes[spec["base2"]])       # multiple inheritance: class C(A, B)
 
     if spec["style"] == "dataclass":
         ns = {"__annotations__": {}}
@@ -34,7 +38,7 @@ def _make_class(spec, classes):
         def __post_init__(self, _n=name):
             cb("init", _n, None)
         ns["__post_init__"] = __post_init__
-        cls = type(name, (base,), ns)
+        cls = type(name, bases, ns)
         cls = dataclasses.dataclass(eq=spec.get("eq", False), repr=False)(cls)
     else:
         if extra:
@@ -46,7 +50,7 @@ def _make_class(spec, classes):
             def __init__(self, f0, f1=7, _n=name):
                 cb("init", _n, None)
                 self.f0, self.f1 = f0, f1
-        cls = type(name, (base,), {"__init__": __init__})
+        cls = type(name, bases, {"__init__": __init__})
     if spec.get("decorated"):
         cls = symbol(cls)
     return cls
@@ -81,7 +85,9 @@ class C14(Prop):
     vacuity = {"quick": ["probe:query_judged", "probe:undecorated_subclass_instance_seen", "probe:inferred_instance_queried",
                          "probe:symbolic_construction_checked", "probe:query_after_clear", "probe:overlap_judged",
                          "probe:manual_init_class", "probe:dataclass_class", "probe:parent_query_sees_subclass",
-                         "probe:abandoned_registry_query", "probe:kwargs_filtered_query"]}
+                         "probe:abandoned_registry_query", "probe:kwargs_filtered_query",
+                         "probe:many_instances_constructed", "probe:multiple_inheritance_class",
+                         "probe:declared_earlier_query_judged"]}
 
     # ------------------------------------------------------------------ generation
     def gen(self, rng, tier, campaign):
@@ -94,18 +100,25 @@ class C14(Prop):
             style = rng.choice(["dataclass", "manual"]) if base is None else None
             if base is not None:
                 style = next(c for c in classes if c["name"] == base)["style"]
-            classes.append({"name": f"K{i}", "base": base, "style": style,
+            base2 = None
+            if base is not None and len(classes) >= 2 and rng.random() < 0.2:
+                cands = [c["name"] for c in classes if c["name"] != base and c["style"] == style]
+                base2 = rng.choice(cands) if cands else None
+            classes.append({"name": f"K{i}", "base": base, "base2": base2, "style": style,
                             "decorated": True if base is None else rng.random() < 0.5,
                             "eq": rng.random() < 0.4,
                             "extra_field": (f"g{i}" if base is not None and rng.random() < 0.3 else None)})
         names = [c["name"] for c in classes]
         ops = []
+        early = []
         n_ops = rng.randint(2, 14 if tier == "quick" else 24)
         val = 0
         for _ in range(n_ops):
             r = rng.random()
             val += 1
-            if r < 0.4:
+            if r < 0.05:
+                ops.append(["construct_many", rng.choice(names), rng.choice([5, 9, 17, 33]), val * 1000])
+            elif r < 0.4:
                 ops.append(["construct", rng.choice(names), rng.choice(["pos", "kw", "default", "pos1"]), val])
             elif r < 0.5:
                 ops.append(["construct_symbolic", rng.choice(names), rng.choice(["sym", "rule"]),
@@ -116,11 +129,21 @@ class C14(Prop):
                 ops.append(["clear"])
             elif r < 0.9:
                 ops.append(["query", rng.choice(names), rng.choice(["let", "call", "kwf"])])
-            elif r < 0.95:
+            elif r < 0.92:
                 ops.append(["overlap", rng.choice(names), rng.choice([0, 1, 2]), rng.choice(names), val])
+            elif r < 0.96:
+                # a variable declared now and evaluated for the first time by a later op
+                if early and rng.random() < 0.6:
+                    ops.append(["evaldecl", early.pop(rng.randrange(len(early)))])
+                else:
+                    dn = f"e{len(ops)}"
+                    early.append(dn)
+                    ops.append(["declare", dn, rng.choice(names), rng.choice(["let", "call"])])
             else:
                 # a no-domain query abandoned after k results: closed, dropped, or kept referenced and never resumed
                 ops.append(["partial", rng.choice(names), rng.choice([0, 1, 1, 2]), rng.choice(["close", "drop", "keep"])])
+        for dn in early:
+            ops.append(["evaldecl", dn])
         ops.append(["query", rng.choice(names), "let"])
         ops.append(["query", names[0], "call"])
         return {"classes": classes, "ops": ops}
@@ -136,6 +159,8 @@ class C14(Prop):
             for spec in plan["classes"]:
                 classes[spec["name"]] = _make_class(spec, classes)
                 sim.count("probe:manual_init_class" if spec["style"] == "manual" else "probe:dataclass_class")
+                if len(classes[spec["name"]].__bases__) > 1:
+                    sim.count("probe:multiple_inheritance_class")
         except Exception as e:
             set_current(None)
             res.skipped = True
@@ -149,6 +174,8 @@ class C14(Prop):
         sig = []
         states = set()
         kept_iters = []     # abandoned, still referenced, never resumed
+        declared = {}       # name -> (query, class name, classes with instances at declaration, #clears so far)
+        cleared_count = [0]
         cleared = False
         inferred_ids = set()
 
@@ -200,6 +227,17 @@ class C14(Prop):
                             raise
                         except Exception as e:
                             sim.violate("concrete-construction-raised", {"class": op[1], "style": op[2],
+                                                                         "exc": type(e).__name__, "msg": str(e)[:200]})
+                    elif kind == "construct_many":
+                        try:
+                            for k in range(op[2]):
+                                construct(op[1], "kw", op[3] + k)
+                            sim.count("probe:many_instances_constructed")
+                            sig.append(("construct_many", op[1], op[2]))
+                        except SimBudget:
+                            raise
+                        except Exception as e:
+                            sim.violate("concrete-construction-raised", {"class": op[1], "style": "kw",
                                                                          "exc": type(e).__name__, "msg": str(e)[:200]})
                     elif kind == "construct_symbolic":
                         cls = classes[op[1]]
@@ -265,6 +303,7 @@ class C14(Prop):
                         Variable._cache_.clear()
                         model.clear()
                         cleared = True
+                        cleared_count[0] += 1
                         sig.append(("clear",))
                     elif kind == "query":
                         want = expected(op[1], op[2])
@@ -298,6 +337,43 @@ class C14(Prop):
                                 "classes": plan["classes"]})
                         if len(set(type(o).__name__ for o in got_objs)) >= 2:
                             res.nontrivial = True
+                    elif kind == "declare":
+                        cls = classes[op[2]]
+                        with symbolic_mode():
+                            v = let(cls) if op[3] == "let" else cls()
+                            q = an(entity(v))
+                        # classes that had a registered instance when the variable was declared
+                        declared[op[1]] = (q, op[2], {type(o).__name__ for o in model}, cleared_count[0])
+                        sig.append(("declare", op[2]))
+                    elif kind == "evaldecl":
+                        ent = declared.pop(op[1], None)
+                        if ent is None:
+                            sig.append(("evaldecl", "noop"))
+                        else:
+                            q, cname, known_then, clears_then = ent
+                            want = expected(cname)
+                            try:
+                                sim.cb_enabled = True
+                                try:
+                                    got_objs = list(q.evaluate())
+                                finally:
+                                    sim.cb_enabled = False
+                                got = sorted(label(o) for o in got_objs)
+                                outcome = len(got)
+                            except SimBudget:
+                                raise
+                            except Exception as e:
+                                got, outcome = None, "raised:" + type(e).__name__
+                            sim.count("probe:declared_earlier_query_judged")
+                            new_classes = sorted({type(o).__name__ for o in model
+                                                  if isinstance(o, classes[cname])} - known_then)
+                            sig.append(("evaldecl", outcome))
+                            if got != want:
+                                sim.violate("declared-earlier-query-vs-construction-log", {
+                                    "query_type": cname, "delivered": got, "expected": want,
+                                    "classes_first_instantiated_after_declaration": new_classes,
+                                    "registry_cleared_between": cleared_count[0] != clears_then,
+                                    "classes": plan["classes"]})
                     elif kind == "partial":
                         try:
                             sim.cb_enabled = True
